@@ -30,6 +30,8 @@ pub struct FullWorldSpec {
     pub monitors: fn() -> Vec<Box<dyn Monitor>>,
     pub steer: Option<Steer>,
     pub lenient_bank: bool,
+    /// custom world construction (default: the fully wired world of section 4.4)
+    pub build: Option<fn(&Cfg, &mut Rng) -> Result<World, String>>,
 }
 
 pub fn op_json(op: &Op) -> Value {
@@ -40,7 +42,11 @@ pub fn run_full_history(spec: &FullWorldSpec, seed: u64, prop_salt: u64, index: 
     let mut rng = Rng::derive(seed, prop_salt, index);
     let mut cfg = random_cfg(&mut rng);
     (spec.tune_cfg)(&mut cfg, &mut rng);
-    let mut world = match build_world(&cfg) {
+    let built = match spec.build {
+        Some(f) => f(&cfg, &mut rng),
+        None => build_world(&cfg),
+    };
+    let mut world = match built {
         Ok(w) => w,
         Err(e) => {
             let mut out = Out::default();
